@@ -446,6 +446,9 @@ func TestC16ConcurrentCreate(t *testing.T) {
 		}
 		c := CreateCase{Target: tg, N: rapid.IntRange(2, 8).Draw(rt, "n"), Type: rapid.SampledFrom([]string{"number", "time"}).Draw(rt, "type"),
 			NowMS: int64(rapid.SampledFrom([]int{100_000, 1_000_000, 1_700_000_000_000}).Draw(rt, "base")) + int64(rapid.IntRange(0, 5000).Draw(rt, "off"))}
+		if segMS := int64(e.Asset.LoopMS) / int64(len(e.Asset.Ref.Segs)); c.NowMS/segMS >= 1<<32-16 {
+			c.NowMS = 1_000_000 + c.NowMS%5000 // the sequence number of a segment is a 32-bit field
+		}
 		v := checkCreate(c, e)
 		run.NonTrivial(c)
 		run.Eval("concurrent-creation", fmt.Sprintf("concurrent-creation:%d", c.N))
